@@ -165,8 +165,31 @@ class C02(Prop):
 class C04(Prop):
     cmd = "c04"
     cases = {"quick": 120, "thorough": 3000}
-    rule = ("every non-empty corpus file and generated workbooks (C02 generator): two saves of the unchanged object, three load/save "
-            "generations (standard and light writer), one random single-cell edit on the loaded workbook; distinct by hash of the original's dump")
+    grammar_files = {"quick": 80, "thorough": 2000}
+    rule = ("every non-empty corpus file, files written by the grammar-based generator gen/xlsxgen.py (shared formulas, inline strings, tables, ...) and workbooks built through the API "
+            "(C02 generator): two saves of the unchanged object, three load/save generations (standard and light writer), one single-cell edit on the loaded workbook, "
+            "aimed at shared-formula members / formula cells / existing cells / new cells; distinct by hash of the original's dump")
+
+    def run(self, v, tier, seed):
+        sys.path.insert(0, os.path.join(vlib.VERIF, "monitors"))
+        sys.path.insert(0, os.path.join(vlib.VERIF, "gen"))
+        import xlsxgen, xlsx_validate
+        out = vlib.workdir(self.cmd)
+        lst = os.path.join(out, "grammar-files.txt")
+        with open(lst, "w") as f:
+            for i in range(self.grammar_files[tier]):
+                sd = seed * 7919 + i
+                data, _intent = xlsxgen.generate(sd)
+                if xlsx_validate.validate(data):
+                    continue
+                p = os.path.join(out, "grammar-%d.xlsx" % sd)
+                open(p, "wb").write(data)
+                f.write(p + "\n")
+        res = vlib.run_uvh(self.cmd, out, seed, tier, self.cases.get(tier), extra={"list": lst})
+        v.add_result(res)
+        v.rule = self.rule
+        v.assumptions = list(self.assumptions)
+        self.post(v, res, out, tier, seed)
     assumptions = ["oracle: strict equality of the full public-getter dumps of successive generations; orig~gen1 under the documented normal form "
                    "(font None vs Some is a wildcard because None means 'font 0 of that file'; a column entry carrying only the default width is not a setting)",
                    "'same parts and same content' for two consecutive saves = equal part lists and equal dumps after loading each file (byte order of order-insensitive tables may differ)",
